@@ -43,8 +43,21 @@ pub fn generate(g: &mut Gen, thorough: bool) {
         for ellps in ["GRS80", "sphere", "intl"] {
             let def = format!("laea lat_0={lat_0} lon_0=10 x_0=4321000 y_0=3210000 ellps={ellps}");
             let d = proj::ProjDef { name: "laea", shape: String::new(), ellps: ellps.into(), lon_0: 10.0, lat_0: Some(lat_0), k_0: 1.0, x_0: 0.0, y_0: 0.0, has_lon0: true, has_k0: false, has_xy: true, centre: (10.0, (lat_0 as f64).clamp(-60.0, 60.0)), extent: (60.0, 28.0) };
-            let pts = proj::points(&mut g.rng, &d, 8);
+            let mut pts = proj::points(&mut g.rng, &d, 8);
+            // the projection centre itself and its immediate surroundings (for the polar aspects: the pole)
+            let near = |off: f64| -> [f64; 4] {
+                let lat: f64 = (lat_0 as f64).to_radians();
+                let lat = if lat > 0.0 { lat - off } else { lat + off };
+                [10f64.to_radians() + off, lat, 0.0, 0.0]
+            };
+            pts.push(near(0.0));
+            pts.push(near(1e-3));
             case(g, "default", &def, "F", "geo", 5e-6, &pts, "laea-aspects", true);
+            // millimetres to tens of metres from the centre (a case of its own: for the polar aspects see
+            // the known finding laea-polar-aspects-next-to-the-pole)
+            let close: Vec<[f64; 4]> = [1e-9, 1e-7, 1e-6, 1e-5].iter().map(|o| near(*o)).collect();
+            let tagged = format!("laea lat_0={lat_0} lon_0=10 x_0=1 y_0=2 ellps={ellps}");
+            case(g, "default", &tagged, "F", "geo", 5e-6, &close, "laea-next-to-the-centre", true);
         }
     }
     // omerc: variants A and B, Laborde, azimuth 90
